@@ -1,9 +1,17 @@
 /-
-  TinyLFU admission on the sequential model of `sync::Cache` (C13 / C12, kind `.sync`):
-  provenance of list nodes (a node stores the hash of its key), time-stamp sanity, what a
-  maintenance run does to a quiescent calm cache (nothing) and to one with a single queued
-  insert of a new key (the closed formula of `admit`), the correspondence with snapshots and
-  the walk of the trace oracle `admitC13Sync` over model traces.
+  TinyLFU admission and recency on the sequential model of `sync::Cache` (C13 / C12, kind
+  `.sync`).
+
+  Part 1 (C13): provenance of list nodes (a node stores the hash of its key), time-stamp
+  sanity, what a maintenance run does to a quiescent calm cache (nothing) and to one with a
+  single queued insert of a new key (the closed formula of `admit`), the correspondence with
+  snapshots and the walk of the trace oracle `admitC13Sync` over model traces.
+
+  Part 2 (C12): between two quiescent snapshots with at most one use, maintenance only removes
+  nodes and moves *unstable* ones (the node of the used info, nodes whose entry has left the
+  map) to the back (`Mv`, `Seg`, `SI`); the global invariants this needs (`KeyOk`: an info
+  belongs to one key; `GDP`: a dirty entry has its insert queued); the order at a quiescent
+  snapshot (`final_order`) and the walk of `recencyWalk` over model traces.
 -/
 import MiniMoka.Lemmas.SyncNodes
 import MiniMoka.Lemmas.SyncQueues
